@@ -846,9 +846,10 @@ TOL = Fraction(1, 10 ** 9)
 class ConcreteVC(object):
     symbolic = False
 
-    def __init__(self, values, as_float=False):
+    def __init__(self, values, as_float=False, rng=None):
         self.values = values
         self.as_float = as_float
+        self.rng = rng
         self.failed = []
         self.checked = []
         self.notes = []
@@ -857,7 +858,16 @@ class ConcreteVC(object):
 
     def real(self, name):
         if name not in self.values:
-            raise KeyError("no value for input %s" % name)
+            if self.rng is None:
+                raise KeyError("no value for input %s" % name)
+            # random concrete search: small lattice rationals (denominators 1, 2, 4), zero fairly often
+            r = self.rng.random()
+            if name == "eps":
+                self.values[name] = Fraction(1, 10 ** 10)
+            elif r < 0.15:
+                self.values[name] = Fraction(0)
+            else:
+                self.values[name] = Fraction(self.rng.randint(-16, 16), self.rng.choice((1, 1, 2, 4)))
         v = self.values[name]
         if isinstance(v, str):
             v = Fraction(v)
@@ -939,3 +949,31 @@ def run_concrete(harness, values, as_float=False):
     except PreconditionFailed as e:
         return "pre", [str(e)], vc.checked, vc.notes
     return ("fail" if vc.failed else "ok"), vc.failed, vc.checked, vc.notes
+
+
+UNIT_VECTORS = [(1, 0, 0), (0, 1, 0), (0, 0, 1), (-1, 0, 0), (0, 0, -1), (Fraction(1, 3), Fraction(2, 3), Fraction(2, 3)), (Fraction(2, 3), Fraction(-2, 3), Fraction(1, 3)),
+                (Fraction(2, 7), Fraction(3, 7), Fraction(6, 7)), (Fraction(-6, 7), Fraction(2, 7), Fraction(3, 7)), (Fraction(3, 5), Fraction(4, 5), 0), (0, Fraction(-4, 5), Fraction(3, 5))]
+
+
+def run_random(harness, trials, seed, want_labels=None):
+    """random concrete search on the real, un-stubbed code: -> {label: values} for clauses that fail natively"""
+    import random
+    load_repo()
+    rng = random.Random(seed)
+    found = {}
+    tried = 0
+    for _ in range(trials):
+        vc = ConcreteVC({}, rng=rng)
+        try:
+            harness(vc)
+        except PreconditionFailed:
+            continue
+        except Exception:
+            continue
+        tried += 1
+        for lab in vc.failed:
+            if lab not in found and (want_labels is None or any(lab.startswith(w) or w.startswith(lab) for w in want_labels)):
+                found[lab] = {k: str(v) for k, v in vc.values.items()}
+        if want_labels is not None and all(any(l.startswith(w) or w.startswith(l) for l in found) for w in want_labels):
+            break
+    return dict(found=found, admitted_trials=tried)
